@@ -620,6 +620,28 @@ def _consumer_returning_mixed(order, stmt):
     return "returning-validation", True, ""
 
 
+def _consumer_rejected_join_keeps_identity(kind):
+    """A table keeps its identity (==, hash, membership) through calls that were rejected."""
+    reg = registry()
+    T, Q = reg["Table"], reg["Query"]
+    a, t = T("abc"), T("abc")
+    held = {t: "v"}
+    h0 = hash(t)
+    try:
+        if kind == "self-join-foreign-criterion":
+            Q.from_(a).select(a.x).join(t).on(t.id == T("elsewhere").id)
+        elif kind == "join-unknown-cte":
+            Q.from_(a).select(a.x).join(t).on(t.id == reg["AliasedQuery"]("nowhere").id)
+        else:
+            reg["PostgreSQLQuery"].into(a).insert(1).returning(T("other").id, t.id)
+        return "identity-after-rejected-call", False, "the %s call was not rejected" % kind
+    except (reg["JoinException"], reg["QueryException"]):
+        pass
+    ok = t == T("abc") and hash(t) == h0 and t in held and any(k_ == t for k_ in held) and T("abc") in held
+    return "identity-after-rejected-call", ok, "after a rejected %s the table compares %s to an equal one, hash %s, found in a dict by hash: %s" % (
+        kind, t == T("abc"), "unchanged" if hash(t) == h0 else "changed", t in held)
+
+
 CONSUMERS = [
     ("select-after-replace_table", lambda: _consumer_select_after_replace_table(False)),
     ("select-after-replace_table-star", lambda: _consumer_select_after_replace_table(True)),
@@ -634,6 +656,9 @@ CONSUMERS = [
     ("join-same-column-0", lambda: _consumer_join_same_column(0)),
     ("join-same-column-1", lambda: _consumer_join_same_column(1)),
     ("returning-temporal", _consumer_returning_temporal),
+    ("rejected-self-join-keeps-identity", lambda: _consumer_rejected_join_keeps_identity("self-join-foreign-criterion")),
+    ("rejected-cte-join-keeps-identity", lambda: _consumer_rejected_join_keeps_identity("join-unknown-cte")),
+    ("rejected-returning-keeps-identity", lambda: _consumer_rejected_join_keeps_identity("returning")),
 ] + [("join-non-table-source-%s-%d-%s" % (k_, o_, "known" if kn_ else "unknown"), (lambda k_=k_, o_=o_, kn_=kn_: _consumer_join_non_table_source(k_, o_, kn_)))
      for k_ in ("subquery", "cte", "setop") for o_ in (0, 1) for kn_ in (False, True)] + [
     ("returning-mixed-%d-%s" % (o_, st_), (lambda o_=o_, st_=st_: _consumer_returning_mixed(o_, st_))) for o_ in (0, 1, 2) for st_ in ("insert", "update", "delete")
